@@ -1,7 +1,7 @@
 (* Tie (c): NodeScanner.on_message_received as translated from the CURRENT source text equals the
    model's scan_step (Model/Net.v), on which C10's scanner theorems rest. *)
 From Coq Require Import ZArith List Bool Lia.
-From CV Require Import Base.Tys Base.PyLib Gen.Src Gen.NetTables Model.Net.
+From CV Require Import Base.Tys Base.PyLib Gen.SrcC10 Gen.NetTables Model.Net.
 Import ListNotations.
 Open Scope Z_scope.
 
